@@ -162,3 +162,180 @@ Theorem C04_labels_rejected_no_writes :
 Proof. exact finish_sync_labels_rejected. Qed.
 Print Assumptions C04_labels_rejected_no_writes.
 
+(* add this Require line (after the file's existing Require line, or right before the appended block:
+   both placements were test-compiled against a copy of the current Properties file) *)
+From MC Require Import Model.Rolling Model.Safe Model.TracePreds Proofs.C09Proofs Proofs.Round3Proofs.
+
+Theorem C04_revision_adopt_first_asks :
+  forall (c : ccfg) (parent : json) (sel : selector) (claimed : list json) (failed : bool) (o : json),
+       decision parent sel o = ClAdopt ->
+       exists kont : answer -> prog (option bool * list json * bool),
+         claim_rev_one c parent sel (None, claimed, failed) o = Do (parent_get c parent) kont.
+Proof. exact (@C04_revision_adopt_first_asks). Qed.
+Print Assumptions C04_revision_adopt_first_asks.
+
+Theorem C04_revision_adopt_refused_no_call :
+  forall (c : ccfg) (parent : json) (sel : selector) (claimed : list json) (failed : bool) (o : json),
+       decision parent sel o = ClAdopt ->
+       claim_rev_one c parent sel (Some false, claimed, failed) o = Ret (Some false, claimed, true).
+Proof. exact (@C04_revision_adopt_refused_no_call). Qed.
+Print Assumptions C04_revision_adopt_refused_no_call.
+
+Theorem C04_revision_adopt_only_after_recheck :
+  forall (c : ccfg) (parent : json) (sel : selector) (all : list json) (h0 : C04Proofs.hist),
+       hist_post (C04_revision_phi c parent sel all h0)
+         (fun (h : C04Proofs.hist) (st : option bool * list json * bool) =>
+          match fst (fst st) with
+          | Some true => passed_since c parent h0 h
+          | Some false => snd st = true
+          | None => True
+          end) h0 (foldM (claim_rev_one c parent sel) all (None, [], false)).
+Proof. exact (@C04_revision_adopt_only_after_recheck). Qed.
+Print Assumptions C04_revision_adopt_only_after_recheck.
+
+Theorem C04_revision_one_recheck_in_run :
+  forall (c : ccfg) (parent : json) (sel : selector) (all : list json) (e : env) (h0 : list (call * answer)),
+       (p_res c =? rev_res) = false ->
+       forall (post : list (call * answer)) (a : answer) (pre : list (call * answer)) (a' : answer),
+       fst (run (foldM (claim_rev_one c parent sel) all (None, [], false)) e h0) =
+       (post ++ (parent_get c parent, a) :: pre ++ h0)%list -> ~ In (parent_get c parent, a') pre.
+Proof. exact (@C04_revision_one_recheck_in_run). Qed.
+Print Assumptions C04_revision_one_recheck_in_run.
+
+Theorem C04_claim_revisions_adopt_only_after_recheck :
+  forall (c : ccfg) (k : cache) (parent : json) (h0 : C04Proofs.hist),
+       hist_post
+         (fun (h : C04Proofs.hist) (cl : call) =>
+          exists sel : selector,
+            revision_selector c parent = Some sel /\ C04_revision_phi c parent sel (rev_candidates k parent) h0 h cl)
+         (fun (_ : C04Proofs.hist) (_ : option (list json)) => True) h0 (claim_revisions c k parent).
+Proof. exact (@C04_claim_revisions_adopt_only_after_recheck). Qed.
+Print Assumptions C04_claim_revisions_adopt_only_after_recheck.
+
+Theorem C04_claim_revisions_one_recheck_in_run :
+  forall (c : ccfg) (k : cache) (parent : json) (e : env) (h0 : list (call * answer)),
+       (p_res c =? rev_res) = false ->
+       forall (post : list (call * answer)) (a : answer) (pre : list (call * answer)) (a' : answer),
+       fst (run (claim_revisions c k parent) e h0) = (post ++ (parent_get c parent, a) :: pre ++ h0)%list ->
+       ~ In (parent_get c parent, a') pre.
+Proof. exact (@C04_claim_revisions_one_recheck_in_run). Qed.
+Print Assumptions C04_claim_revisions_one_recheck_in_run.
+
+Theorem C04_deleting_parent_claims_no_revision :
+  forall (c : ccfg) (k : cache) (parent : json),
+       is_deleting parent = true -> all_calls (fun _ : call => False) (claim_revisions c k parent).
+Proof. exact (@C04_deleting_parent_claims_no_revision). Qed.
+Print Assumptions C04_deleting_parent_claims_no_revision.
+
+Theorem C04_deleting_parent_claims_no_revision_run :
+  forall (c : ccfg) (k : cache) (parent : json) (e : env) (h : list (call * answer)),
+       is_deleting parent = true -> fst (run (claim_revisions c k parent) e h) = h.
+Proof. exact (@C04_deleting_parent_claims_no_revision_run). Qed.
+Print Assumptions C04_deleting_parent_claims_no_revision_run.
+
+Theorem C04_revision_adoption_in_run :
+  forall (c : ccfg) (k : cache) (parent : json) (e : env) (h0 post : list (call * answer))
+         (q : req) (a : answer) (pre : list (call * answer)),
+       fst (run (claim_revisions c k parent) e h0) = (post ++ (CApi q, a) :: pre ++ h0)%list ->
+       q_res q = rev_res ->
+       q_verb q = VUpdate ->
+       controlled_by (q_body q) (get_uid parent) = true ->
+       is_deleting parent = false /\
+       (exists o : json,
+          In o (rev_candidates k parent) /\ controller_of o = None /\ is_deleting o = false /\ q_name q = get_name o) /\
+       (exists fresh : json,
+          In (parent_get c parent, AObj fresh) pre /\ get_uid fresh = get_uid parent /\ is_deleting fresh = false).
+Proof. exact (@C04_revision_adoption_in_run). Qed.
+Print Assumptions C04_revision_adoption_in_run.
+
+Theorem C04_revision_adoption_in_sync :
+  forall (c : ccfg) (k : cache) (parent : json) (h : C04Proofs.hist),
+       rev_not_child c = true ->
+       hist_post (C04_revision_sync_phi c k parent) (fun (_ : C04Proofs.hist) (_ : sync_result) => True) h
+         (sync_parent_object_r c k parent).
+Proof. exact (@C04_revision_adoption_in_sync). Qed.
+Print Assumptions C04_revision_adoption_in_sync.
+
+Theorem C04_revision_adoption_in_sync_r :
+  forall (c : ccfg) (k : cache),
+       rev_not_child c = true ->
+       forall G : call -> answer -> Prop,
+       safe G
+         (fun (h : hist) (cl : call) =>
+          forall parent : json, k_parent k = Some parent -> C04_revision_sync_phi c k parent h cl) [] 
+         (sync_r c k).
+Proof. exact (@C04_revision_adoption_in_sync_r). Qed.
+Print Assumptions C04_revision_adoption_in_sync_r.
+
+Theorem C04_revision_adoption_in_sync_run :
+  forall (c : ccfg) (k : cache) (parent : json) (e : env) (post : list (call * answer))
+         (q : req) (a : answer) (pre : list (call * answer)),
+       rev_not_child c = true ->
+       fst (run (sync_parent_object_r c k parent) e []) = (post ++ (CApi q, a) :: pre)%list ->
+       has_hook pre = false ->
+       q_res q = rev_res ->
+       q_verb q = VUpdate ->
+       exists p1 : json,
+         parent_version c parent pre p1 /\
+         (controlled_by (q_body q) (get_uid p1) = true ->
+          is_deleting p1 = false /\
+          (exists o : json, In o (rev_candidates k p1) /\ controller_of o = None /\ q_name q = get_name o) /\
+          (exists fresh : json,
+             In (parent_get c p1, AObj fresh) pre /\ get_uid fresh = get_uid p1 /\ is_deleting fresh = false)).
+Proof. exact (@C04_revision_adoption_in_sync_run). Qed.
+Print Assumptions C04_revision_adoption_in_sync_run.
+
+Theorem C04_revision_adoption_inhabited :
+  let body := adopt_edit R3X.cfg R3X.parent R3X.orphan in
+       decision R3X.parent match revision_selector R3X.cfg R3X.parent with
+                           | Some s => s
+                           | None => sel_everything
+                           end R3X.orphan = ClAdopt /\
+       trace_of (claim_revisions R3X.cfg (R3X.cache_of R3X.parent R3X.orphan) R3X.parent) (R3X.e_ok R3X.parent false) =
+       [(parent_get R3X.cfg R3X.parent, AObj R3X.parent); (rev_get R3X.parent R3X.orphan, AObj R3X.orphan);
+        (rev_put R3X.parent R3X.orphan body, AObj body)] /\
+       rev_put R3X.parent R3X.orphan body =
+       CApi
+         {|
+           q_verb := VUpdate;
+           q_res := rev_res;
+           q_ns := "ns";
+           q_name := "p-old";
+           q_body := body;
+           q_uid_pre := "";
+           q_prop := ""
+         |} /\
+       controller_of R3X.orphan = None /\
+       controlled_by body (get_uid R3X.parent) = true /\
+       controller_count body = 1 /\
+       is_deleting R3X.parent = false /\
+       result_of (claim_revisions R3X.cfg (R3X.cache_of R3X.parent R3X.orphan) R3X.parent)
+         (R3X.e_ok R3X.parent false) = Some [R3X.orphan] /\ (p_res R3X.cfg =? rev_res) = false.
+Proof. exact (@C04_revision_adoption_inhabited). Qed.
+Print Assumptions C04_revision_adoption_inhabited.
+
+Theorem C04_revision_no_adoption_inhabited :
+  is_deleting R3X.parent_deleting = true /\
+       trace_of (claim_revisions R3X.cfg (R3X.cache_of R3X.parent_deleting R3X.orphan) R3X.parent_deleting)
+         (R3X.e_ok R3X.parent_deleting false) = [] /\
+       result_of (claim_revisions R3X.cfg (R3X.cache_of R3X.parent_deleting R3X.orphan) R3X.parent_deleting)
+         (R3X.e_ok R3X.parent_deleting false) = Some [] /\
+       trace_of (claim_revisions R3X.cfg (R3X.cache_of R3X.parent R3X.orphan) R3X.parent)
+         (R3X.e_ok R3X.parent_reborn false) = [(parent_get R3X.cfg R3X.parent, AObj R3X.parent_reborn)] /\
+       trace_of (claim_revisions R3X.cfg (R3X.cache_of R3X.parent R3X.orphan) R3X.parent)
+         (R3X.e_ok R3X.parent_deleting false) = [(parent_get R3X.cfg R3X.parent, AObj R3X.parent_deleting)] /\
+       result_of (claim_revisions R3X.cfg (R3X.cache_of R3X.parent R3X.orphan) R3X.parent)
+         (R3X.e_ok R3X.parent_reborn false) = None.
+Proof. exact (@C04_revision_no_adoption_inhabited). Qed.
+Print Assumptions C04_revision_no_adoption_inhabited.
+
+Theorem C04_revision_adoption_in_sync_inhabited :
+  rev_not_child R3X.cfg = true /\
+       map (fun ca : call * answer => R3X.call_sig (fst ca))
+         (trace_of (sync_r R3X.cfg (R3X.cache_of R3X.parent R3X.orphan)) (R3X.e_ok R3X.parent false)) =
+       [(VGet, R3X.P, "p"); (VGet, R3X.R, "p-old"); (VUpdate, R3X.R, "p-old"); (VGet, "hook", "");
+        (VGet, "hook", ""); (VCreate, R3X.R, "p-new"); (VUpdate, R3X.R, "p-old"); (VCreate, "things.apps/v1", "a");
+        (VCreate, "things.apps/v1", "b"); (VGet, R3X.P, "p"); (VUpdateStatus, R3X.P, "p")] /\
+       result_of (sync_r R3X.cfg (R3X.cache_of R3X.parent R3X.orphan)) (R3X.e_ok R3X.parent false) = SDone.
+Proof. exact (@C04_revision_adoption_in_sync_inhabited). Qed.
+Print Assumptions C04_revision_adoption_in_sync_inhabited.
